@@ -81,6 +81,12 @@ def run_walk(block, ctx):
                 try:
                     e.get_date(utc=True)
                     e.get_full_date(leap_seconds=20)
+                    if d == 1 and yy >= 1972:
+                        # another object is built from a UTC date in the last 30 s of the previous day (its TT
+                        # instant already lies in this day) before this object is read
+                        py, pm, pd = cal_fast().date(n - 1)
+                        Epoch(py, pm, pd, 23, 59, 30.0, utc=True)
+                        Epoch(py, pm, pd, 23, 59, 55.0, leap_seconds=35)
                     g2 = e.get_date()
                     if g2 != (yy, m, float(d)):
                         ctx.viol({"y": yy, "m": m, "d": d, "n": n, "prev": prev},
@@ -120,6 +126,17 @@ def month_forms(y, m):
 def check_month(y, m, n_first):
     out = []
     L = cal.mlen(y, m)
+    # ONE object holding the last day of the month with a time of day is then set() to the day past the month's end
+    try:
+        for bad in (L + 1, L + 1.25):
+            e = Epoch(y, m, L + 0.75)       # (a refused set() leaves the object at JDE 0: a fresh one each time)
+            try:
+                e.set(y, m, bad)
+                out.append(("reject", "Epoch(%d,%d,%r).set(%d,%d,%r) accepted, month has %d days" % (y, m, L + 0.75, y, m, bad, L)))
+            except ValueError:
+                pass
+    except Exception as ex:
+        out.append(("reject", "set() to a day past the end of %d-%d raised %r" % (y, m, ex)))
     for dd in (0, L + 1, L + 2, -1):
         for ctor in ("args", "tuple"):
             try:
@@ -333,6 +350,53 @@ def run_tlc(window, ctx):
                 "first": states[0], "last": states[-1]})
 
 
+# -- decode a Julian-calendar day, then the Gregorian day a whole number of 400-year cycles later --------------------
+
+def run_cycle_pairs(spec, ctx):
+    """spec = (first day number, last day number, step): for every Julian-calendar day number z in the block the
+    date of z is read, then the date of z + k * 146 097 for the first one or two k that land in the Gregorian
+    calendar; both against the reference calendar.  (And the other way round.)  A memo that replays month and day
+    across a whole number of Gregorian cycles must not be fed by a Julian date."""
+    z0, z1, step = spec
+    f = cal_fast()
+    for z in range(z0, z1, step):
+        k = (2299161 - z + 146096) // 146097
+        for kk in (k, k + 1):
+            z2 = z + kk * 146097
+            if z2 > f.n(Y1, 12, 31):
+                continue
+            for a, b in ((z, z2), (z2, z)):
+                ctx.evals += 2
+                try:
+                    ga = Epoch(float(a)).get_date()
+                    gb = Epoch(float(b)).get_date()
+                except Exception as ex:
+                    ctx.viol({"first": a, "then": b}, "get_date raised %r" % ex, site="cycle_pair")
+                    continue
+                ya, ma, da = f.date(a)
+                yb, mb, db = f.date(b)
+                if ga != (ya, ma, da + 0.5) or gb != (yb, mb, db + 0.5):
+                    ctx.viol({"first": a, "then": b}, "Epoch(%r).get_date() = %r then Epoch(%r).get_date() = %r, calendar "
+                             "gives %r and %r" % (float(a), ga, float(b), gb, (ya, ma, da + 0.5), (yb, mb, db + 0.5)),
+                             site="cycle_pair")
+        ctx.nt_count += 1
+    ctx.outcome(z0 // 146097)
+    ctx.obs(z0, z1)
+    ctx.sample({"first": z0, "then": z0 + ((2299161 - z0 + 146096) // 146097) * 146097})
+
+
+def replay_cycle_pair(case):
+    f = cal_fast()
+    a, b = case["first"], case["then"]
+    ga = Epoch(float(a)).get_date()
+    gb = Epoch(float(b)).get_date()
+    ya, ma, da = f.date(a)
+    yb, mb, db = f.date(b)
+    if ga != (ya, ma, da + 0.5) or gb != (yb, mb, db + 0.5):
+        return ["Epoch(%r).get_date() = %r then Epoch(%r).get_date() = %r" % (float(a), ga, float(b), gb)]
+    return []
+
+
 # -- histories over the static helpers and the constructor: each sequence in a freshly forked process --------------
 
 SH_YEARS = [1500, 1582, 1600, 1900, 2000, -4, 0, 100, 4, 1501]
@@ -476,6 +540,8 @@ def clauses(tier):
         Clause("months", chunks(ys, 48), run_months, replay_months,
                floor=100000, shape="S"),
         Clause("anchors", [0], run_anchors, replay_anchor, floor=3, shape="S"),
+        Clause("cycle_pairs", [(z, min(z + 9200, 2299161), 1 if tier == "thorough" else 3) for z in range(0, 2299161, 9200)],
+               run_cycle_pairs, replay_cycle_pair, floor=100000, shape="H"),
         Clause("static_history", chunks(static_sequences(tier), 64), run_static_history, check_static_history,
                floor=5000, shape="H"),
     ]
